@@ -143,11 +143,14 @@ func (r *subRegistry) Repositories(ctx context.Context, startAfter string) ocire
 	p := r.prefix + "/"
 	return func(yield func(string, error) bool) {
 		// TODO(go1.23): for name, err := range r.r.Repositories(ctx)
-		if startAfter != "" {
-			// The start point is a name inside the view too.
-			startAfter = p + startAfter
+		// The start point is a name inside the view too.
+		// Note: don't change startAfter itself, as the
+		// iterator may be used more than once.
+		start := startAfter
+		if start != "" {
+			start = p + start
 		}
-		r.r.Repositories(ctx, startAfter)(func(repo string, err error) bool {
+		r.r.Repositories(ctx, start)(func(repo string, err error) bool {
 			if err != nil {
 				yield("", err)
 				return false
